@@ -124,7 +124,9 @@ def options(rng):
     if rng.random() < 0.4:
         o["set"] = rng.choice(["A,D", "a,d,y", "A,D,O,K,X,Y,M", "M,A", "D", "A,O,X"])
     if rng.random() < 0.35:
-        o["regex"] = rng.choice(["^A", "D[0-9]+$", "A.*D", "^[ADM]", "[OX]", "^A,D"])
+        o["regex"] = rng.choice(["^A", "D[0-9]+$", "A.*D", "^[ADM]", "[OX]", "^A,D",
+                                 # lower-case escape classes and an inline flag: a regex is matched as typed, never case-folded
+                                 r"A\d+$", r"^\w\d+$", r"D\d$,^\w", "(?i)^a", r"\d\d"])
     if not o:
         o["min"], o["max"] = 0, 8
     return o
